@@ -34,7 +34,7 @@ def gen_ladders(rng, base_i, even, nlev):
 
 def gen_market(rng, mid, opts):
     even = opts.get("even", rng.random() < 0.6)
-    nrun = rng.randrange(2, 4)
+    nrun = rng.choice(opts["nrun"]) if opts.get("nrun") else rng.randrange(2, 4)
     nupd = rng.randrange(opts.get("min_upd", 5), opts.get("max_upd", 13))
     pt = 1_700_000_000_000 + mid * 3_600_000 * (0 if opts.get("same_time") else 1)
     mtype = rng.choice(opts.get("types", ["WIN", "WIN", "PLACE", "OTHER_PLACE", "EACH_WAY"]))
@@ -71,6 +71,11 @@ def gen_market(rng, mid, opts):
                 i = rng.choice([k for k in range(nrun) if k not in removed])
                 removed[i] = rng.choice(opts.get("adjs", [None, 0, 249, 250, 251, 1000, 3300, 150]))
                 version += 1
+                if opts.get("rescale_adj") and removed[i] and u > 0:
+                    # the exchange rescales the adjustment factors of the remaining runners after a non-runner
+                    for rid in list(adj0):
+                        if adj0[rid] is not None and rid - 1 not in removed:
+                            adj0[rid] = min(9900, int(round(adj0[rid] * 10000 / (10000 - removed[i]))))
         runners = []
         for i in range(nrun):
             if i in removed:
